@@ -489,6 +489,7 @@ func propC03(r *Run) {
 		}
 	}
 	c03Refs(r)
+	c03RefsWrap(r)
 	// within / overlap (survival predicates)
 	for t := 0; t < nRandom/4; t++ {
 		LL := r.rangeL()
